@@ -95,3 +95,16 @@ Example C05_twin_nonvacuous :
   twin_ok MYSQL [(L "zqv1", MVal (VStr (L "a'b\")))]
      (L "SELECT `a` FROM `t` WHERE `a`='zqv1' AND `b`=1") (L "SELECT `a` FROM `t` WHERE `a`='a''b\' AND `b`=1") = Some false.
 Proof. vm_compute. split; reflexivity. Qed.
+
+From PT Require Import Model.Interval Model.Syntax Gen.Enums Gen.Prec Gen.Placeholders Model.Render.
+
+(* LOAD DATA: the file name is written by the same literal printer as every string value (MySQL rule: backslashes doubled) - for ALL
+   file names; by C05_string the literal reads back as one string token holding the file name *)
+Theorem C05_load_file_literal : forall tn f0 fs,
+  render (ctx_of BMySQL) None (TLoad (Some (f0 :: fs)) (SomeT (TTable (MkTRef true tn [] None 0) NoT NoT))) =
+  Ok (L "LOAD DATA LOCAL INFILE " ++ value_sql WPlain true [39] (VStr (f0 :: fs)) ++ L " INTO TABLE " ++ fquote (L "`") tn ++
+      L " FIELDS TERMINATED BY ','", None).
+Proof.
+  intros tn f0 fs. lazy -[fquote app bsd dbl]. repeat (progress (cbn [app]; rewrite <- ?app_assoc; rewrite ?app_nil_r)). reflexivity.
+Qed.
+Print Assumptions C05_load_file_literal.
